@@ -5,7 +5,7 @@
 #define C05X_CLB_LMAX 2
 #endif
 #define C5_MSG1(msg, len) (g_md_calls == 0 && g_read_calls == 1 && g_read_len == (len) && g_read_bin == C5_P(msg) && g_mod_calls == 1 && g_mod_a == g_read_a && g_mod_c == g_read_a && \
-	g_mod_m == g_ord_n && g_ord_n != NULL)
+	g_mod_m == g_ord_n && g_ord_n != 0)
 #define C5_ADD_OF(u, v) (g_add_p == (u) && g_add_q == C5_P(v) || g_add_q == (u) && g_add_p == C5_P(v))
 
 /* ---- CL scheme A: sigma = (a, b, c) in G1^3, pk = (X, Y) in G2^2; accept iff e(a,Y) = e(b,g2) and e(a + [m]b, X) = e(c,g2), a,b,c well-formed
@@ -30,6 +30,9 @@ __CPROVER_ensures(C5_ACC ==> (g_pair_calls == 2 && g_pair_all2 == 1 && g_unity_c
 /* operands: a, b, c, X, Y each enter a product once by copy; [m]b + a normalised enters the second product */
 __CPROVER_ensures(C5_ACC ==> (g_cpy[0] == 1 && g_cpy[1] == 1 && g_cpy[2] == 1 && g_cpy[3] == 1 && g_cpy[4] == 1 && g_mul_calls == 1 && g_mul_p == C5_P(b) && g_mul_k == g_mod_c && \
 	g_add_calls == 1 && C5_ADD_OF(g_mul_r, a) && g_norm_calls == 1 && g_norm_p == g_add_r))
+/* the scheme's definition, equation by equation: each equation e(P,Q) = e(P',g2) was tested as a product e(P,Q) e(P',-g2) of exactly two pairings whose operands
+   were (copies of) THOSE arguments themselves / the negated generator / the normalised sum, and the unity test on that product's result was true */
+__CPROVER_ensures(C5_ACC ==> (g_sovf == 0 && C5_TESTED(0, 4, 1, C5_T_NEGGEN) && C5_TESTED(C5_T_NORM, 3, 2, C5_T_NEGGEN)))
 /* the message is read over its full length and reduced modulo the group order */
 __CPROVER_ensures(C5_ACC ==> C5_MSG1(msg, len))
 __CPROVER_ensures(g_ctx.last == __CPROVER_old(g_ctx.last))
@@ -56,6 +59,9 @@ __CPROVER_ensures(C5_ACC ==> (g_pair_calls == 4 && g_pair_all2 == 1 && g_unity_c
 /* a, b, B, c, X, Y, Z enter by one copy, A by two (first and third equation); [m]b + [r]B, plus a, normalised, enters the last product */
 __CPROVER_ensures(C5_ACC ==> (g_cpy[0] == 1 && g_cpy[1] == 2 && g_cpy[2] == 1 && g_cpy[3] == 1 && g_cpy[4] == 1 && g_cpy[5] == 1 && g_cpy[6] == 1 && g_cpy[7] == 1 && \
 	g_mul_calls == 1 && g_mulb[2] == 1 && g_mulb[3] == 1 && g_mul_k == g_mod_c && g_add_calls == 1 && C5_ADD_OF(g_mul_r, a) && g_norm_calls == 1 && g_norm_p == g_add_r))
+/* the scheme's definition, equation by equation: each equation e(P,Q) = e(P',g2) was tested as a product e(P,Q) e(P',-g2) of exactly two pairings whose operands
+   were (copies of) THOSE arguments themselves / the negated generator / the normalised sum, and the unity test on that product's result was true */
+__CPROVER_ensures(C5_ACC ==> (g_sovf == 0 && C5_TESTED(0, 7, 1, C5_T_NEGGEN) && C5_TESTED(0, 6, 2, C5_T_NEGGEN) && C5_TESTED(1, 6, 3, C5_T_NEGGEN) && C5_TESTED(C5_T_NORM, 5, 4, C5_T_NEGGEN)))
 __CPROVER_ensures(C5_ACC ==> C5_MSG1(msg, len))
 __CPROVER_ensures(g_ctx.last == __CPROVER_old(g_ctx.last))
 C5_VAC
@@ -85,9 +91,13 @@ __CPROVER_ensures(C5_ACC ==> (g_pair_calls == 2 * (int)l && g_pair_all2 == 1 && 
 __CPROVER_ensures(C5_ACC ==> (g_cpy[0] == 1 && g_cpy[1] == 1 && g_cpy[2] == 1 && g_cpy[7] == 1 && g_cpy[8] == 1 && g_cpy[3] == (l >= 2 ? 2 : 0) && g_cpy[5] == (l >= 2 ? 1 : 0) && \
 	g_cpy[9] == (l >= 2 ? 1 : 0) && g_cpy[4] == (l >= 3 ? 2 : 0) && g_cpy[6] == (l >= 3 ? 1 : 0) && g_cpy[10] == (l >= 3 ? 1 : 0)))
 __CPROVER_ensures(C5_ACC ==> (g_mul_calls == (int)l && g_mulb[1] == 1 && g_mulb[5] == (l >= 2 ? 1 : 0) && g_mulb[6] == (l >= 3 ? 1 : 0) && g_add_calls == (int)l && g_norm_calls == 1 && g_norm_p == g_add_r))
+/* the scheme's definition, equation by equation: each equation e(P,Q) = e(P',g2) was tested as a product e(P,Q) e(P',-g2) of exactly two pairings whose operands
+   were (copies of) THOSE arguments themselves / the negated generator / the normalised sum, and the unity test on that product's result was true */
+__CPROVER_ensures(C5_ACC ==> (g_sovf == 0 && C5_TESTED(0, 8, 1, C5_T_NEGGEN) && C5_TESTED(C5_T_NORM, 7, 2, C5_T_NEGGEN) && (l < 2 || (C5_TESTED(0, 9, 3, C5_T_NEGGEN) && C5_TESTED(3, 8, 5, C5_T_NEGGEN))) && \
+	(l < 3 || (C5_TESTED(0, 10, 4, C5_T_NEGGEN) && C5_TESTED(4, 8, 6, C5_T_NEGGEN)))))
 /* every message read over its own length and reduced modulo the order */
 __CPROVER_ensures(C5_ACC ==> (g_md_calls == 0 && g_read_calls == (int)l && g_mod_calls == (int)l && g_read_len == ls[l - 1] && g_read_bin == C5_P(ms[l - 1]) && g_mod_a == g_read_a && \
-	g_mod_m == g_ord_n && g_ord_n != NULL))
+	g_mod_m == g_ord_n && g_ord_n != 0))
 __CPROVER_ensures(g_ctx.last == __CPROVER_old(g_ctx.last))
 C5_VAC
 ;
